@@ -317,3 +317,43 @@ def guarded_true_by_call(body, du, bb, callee_suffix, dom=None):
         if sl.has_call(callee_suffix):
             return True
     return False
+
+
+def capture_sources(F, body, names, depth=0):
+    """for captured variable names of a closure / async body: {name: Slice of the parent's local with that name}.
+    The link child-capture -> parent-local goes through the variable's name, which is the same identifier on both sides,
+    so a rename keeps it; what the variable *is* should then be decided from the returned slice (fields, calls, type)."""
+    from .defuse import DefUse
+    out = {}
+    par = F.bodies.get(body.parent) if getattr(body, "parent", None) else None
+    if par is None:
+        return out
+    du = DefUse(par)
+    for nm in names:
+        l = par.local_by_name(nm)
+        if l is not None:
+            out[nm] = du.slice_local(l)
+        elif par.kind == "Closure" and depth < 4:
+            out.update(capture_sources(F, par, [nm], depth + 1))
+    return out
+
+
+def captures_with(F, body, sl, pred):
+    """does any captured variable in slice `sl` come from a parent local whose slice satisfies pred"""
+    src = capture_sources(F, body, sl.captures)
+    return any(pred(v) for v in src.values())
+
+
+def capture_types(F, body, names, depth=0):
+    """{name: type string of the parent's local with that name}"""
+    out = {}
+    par = F.bodies.get(body.parent) if getattr(body, "parent", None) else None
+    if par is None:
+        return out
+    for nm in names:
+        l = par.local_by_name(nm)
+        if l is not None:
+            out[nm] = par.locals[l]["ty"]
+        elif par.kind == "Closure" and depth < 4:
+            out.update(capture_types(F, par, [nm], depth + 1))
+    return out
